@@ -1284,6 +1284,8 @@ class BuilderSim:
             # a link added by mistake beyond the signatures of both ends and deleted again: the link set is what it
             # was, only the stores' port counts keep the high-water mark
             cands = [n for n in a.nodes if n in self.hugr]
+            if isinstance(a, Actor) and not a.closed and getattr(a.b, "output_node", None) is not None:
+                cands.append(a.b.output_node)
             blocks = [n for n in self.hugr if type(self.hugr[n].op).__name__ == "DataflowBlock"]
             if blocks and ch.coin(1, 2, "stray-on-block"):
                 src = dst = ch.pick(blocks, "stray-block")
